@@ -123,11 +123,20 @@ class Analysis:
         self.unsigned = set()
         self.var_ty = {}
         mutb = prim.mut_borrowed(fn)
+        ndefs = defaultdict(int)
+        for b in fn.blocks:
+            for s in b.stmts:
+                if s.lhs is not None and s.lhs.is_local():
+                    ndefs[s.lhs.local] += 1
+            if b.term.k == "call" and b.term.dest is not None and b.term.dest.is_local():
+                ndefs[b.term.dest.local] += 1
         for i, l in enumerate(fn.locals):
             ty = l["ty"]
-            if l.get("name") is not None and (ty in UNSIGNED or ty in SIGNED) and i not in mutb:
+            # user variables, and unnamed integers assigned on several paths (the value of a `match`/`if` expression, the
+            # return slot of a spliced helper): their value at the join is only known per path
+            if (l.get("name") is not None or (ndefs[i] >= 2 and i != 0)) and (ty in UNSIGNED or ty in SIGNED) and i not in mutb:
                 self.var_of_local[i] = len(self.vars)
-                self.vars.append("%s(_%d)" % (l["name"], i))
+                self.vars.append("%s(_%d)" % (l.get("name") or "tmp", i))
                 self.var_ty[self.var_of_local[i]] = ty
                 if ty in UNSIGNED:
                     self.unsigned.add(self.var_of_local[i])
